@@ -167,6 +167,8 @@ def gen_int_guards(rng, per_type=26, types=None):
             uk = UPPER[(j // 3) % 2]
             sty_lo = INT_STYLES[(j + 1) % len(INT_STYLES)]
             sty_hi = INT_STYLES[(j * 5 + 3) % len(INT_STYLES)]
+            if (j // len(INT_SHAPES)) % 2 == 0:
+                sty_lo = sty_hi = "lit"         # every shape also with all-literal bounds
             # exclusive bounds must leave room: literal contradictions are rejected by the macro
             if shape.count("L") and shape.count("U"):
                 if lk == "greater" and uk == "less" and not lo_v < hi_v:
@@ -190,7 +192,7 @@ def gen_int_guards(rng, per_type=26, types=None):
             if vitems:
                 blocks.append(block("validate", vitems, trailing=(j % 5 == 0)))
             traits = list(INT_DERIVES)
-            if not vitems:
+            if not vitems and j % 2 == 0:
                 traits[traits.index("TryFrom")] = "From"
             default_arg = None
             if j % 3 == 0:
@@ -315,7 +317,9 @@ def gen_float_guards(rng, per_type=48, start=0):
                 lk, uk = "greater_or_equal", "less_or_equal"
             sty_lo = FLOAT_STYLES[(j + 1) % len(FLOAT_STYLES)]
             sty_hi = FLOAT_STYLES[(j * 5 + 2) % len(FLOAT_STYLES)]
-            special = j % 16
+            if (j // len(FLOAT_SHAPES)) % 2 == 0:
+                sty_lo = sty_hi = "lit"         # every shape also with all-literal bounds
+            special = j % 16 if (j // len(FLOAT_SHAPES)) % 2 else 0
             vitems = []
             bounds = []
             for s in shape:
@@ -352,7 +356,7 @@ def gen_float_guards(rng, per_type=48, start=0):
             default_arg = None
             if "F" in shape:
                 traits += ["Eq", "Ord"]
-            if not vitems:
+            if not vitems and j % 2 == 0:
                 traits[traits.index("TryFrom")] = "From"
             if j % 3 == 0:
                 dt = [lo_t, hi_t, "7.0", "101.5", "-1.0"][(j // 3) % 5]
@@ -464,7 +468,7 @@ def gen_str_guards(rng, n=160, start=0):
             blocks.append(block("validate", vitems))
         traits = list(STR_DERIVES)
         default_arg = None
-        if not vitems:
+        if not vitems and j % 2 == 0:
             traits[traits.index("TryFrom")] = "From"
         if j % 3 == 0:
             dv = ["ab", "", " Ab@ ", "abcdefgh", "x"][(j // 3) % 5]
@@ -539,7 +543,7 @@ def gen_any_guards(rng, n=32, start=0):
             blocks.append(block("validate", vitems))
         traits = list(ANY_DERIVES)
         default_arg = None
-        if not vitems:
+        if not vitems and j % 2 == 0:
             traits[traits.index("TryFrom")] = "From"
         if j % 3 == 0:
             dv = [[1, 2], [], [3, -1, 2, 5, 4], [0]][(j // 3) % 4]
